@@ -81,6 +81,7 @@ package f32
 //@ func L2NormUnitary props: C07(safety) C08
 //@ floats: ieee
 //@ writes nothing
+//@ reads x[k] for k in 0..len(x)
 //@ ensures exists(k, 0, len(x), isNaN(x[k])) ==> isNaN(result)
 //@ loop 1: invariant forall(k, 0, it, !isNaN(x[k]))
 
@@ -88,6 +89,7 @@ package f32
 //@ floats: ieee
 //@ requires int(n) >= 0 && int(incX) >= 1 && strided(x, 0, int(n), int(incX))
 //@ writes nothing
+//@ reads x[k*int(incX)] for k in 0..int(n)
 //@ ensures exists(k, 0, int(n), isNaN(x[k*int(incX)])) ==> isNaN(result)
 //@ loop 1: invariant forall(k, 0, it, !isNaN(x[k*int(incX)]))
 
